@@ -1,1 +1,215 @@
-(* C20 correspondence checker (under construction) *)
+(* C20 — correspondence and property oracle for _modules_copyable.
+   A case carries what was given to the implementation (bracket structure of
+   the copies, schedule) and what the implementation did (the projection of
+   copyreg.dispatch_table and the singleton's counter/flag after every event or
+   scheduler step, positions of the threads, outcomes).
+   check_* returns 0: model = implementation and the observations satisfy the
+   Spec; 1: model <> implementation, Spec still satisfied; 2: the observations
+   violate the Spec.  The Spec side (seq_oracle / conc_oracle) reads only the
+   implementation's observations: it never runs the model. *)
+From Coq Require Import List ZArith Bool Arith.
+From SC Require Import Base.Res Conc.ModulesCopyableModel Conc.ModulesCopyableSpec Corr.Enc.
+Import ListNotations.
+Open Scope Z_scope.
+
+Definition enc_entry (e : entry) : Z := match e with NoEntry => 0 | Ours => 1 | Users => 2 end.
+Definition dec_entry (z : Z) : entry := if z =? 1 then Ours else if z =? 2 then Users else NoEntry.
+Definition b2z (b : bool) : Z := if b then 1 else 0.
+Definition enc_shared (s : shared) : list Z :=
+  [rc s; b2z (patched s); enc_entry (tbl s); b2z (created s)].
+
+(* ------------------------------------------------------------ sequential histories *)
+(* events: 0 operation ended (last field: 1 = it raised)   1 __enter__ returned
+           2 __exit__ returned    3 exception out of __new__/__enter__
+           4 a module was copied through the table   5 exception out of __exit__ *)
+Definition in_exit (th : thread) : bool :=
+  match t_ctl th with Proto p _ => Nat.leb 17 (pc_id p) && Nat.leb (pc_id p) 22 | _ => false end.
+
+Definition seq_event (th : thread) (l : label) (s' : state) : list (list Z) :=
+  let e := enc_shared (sh s') in
+  match l with
+  | LEntered => [1 :: e]
+  | LExited => [2 :: e]
+  | LAbort => [(if in_exit th then 5 else 3) :: e]
+  | LUse => match t_code th, nth_error (ths s') 0 with
+            | Use true :: _, Some th' =>
+                match t_ctl th' with Run => [4 :: e] | _ => [] end
+            | _, _ => []
+            end
+  | LTryEnd => [0 :: e ++ [0]]
+  | LCaught => [0 :: e ++ [1]]
+  | _ => []
+  end.
+
+Fixpoint run_seq (fuel : nat) (s : state) : list (list Z) :=
+  match fuel with
+  | O => [[-77]]
+  | S f =>
+      match nth_error (ths s) 0 with
+      | None => []
+      | Some th =>
+          match step false any_abort s 0 with
+          | None => []
+          | Some (s', l) => seq_event th l s' ++ run_seq f s'
+          end
+      end
+  end.
+
+(* the property, on the implementation's events alone: nesting depth is counted
+   from the events; whenever the depth is 0 the table must hold its initial
+   content, whenever it is positive an entry must be present; an operation may
+   raise only if the harness made it raise *)
+Fixpoint seq_oracle (init : entry) (planned : list bool) (depth : Z) (seen : list (list Z)) : bool :=
+  match seen with
+  | [] => (depth =? 0) && match planned with [] => true | _ => false end
+  | (k :: _ :: _ :: e :: _ :: rest) :: r =>
+      let depth' := if k =? 1 then depth + 1
+                    else if (k =? 2) || (k =? 5) then depth - 1 else depth in
+      let st := if 0 <? depth' then Inside else Outside in
+      snap_okb init [st] (dec_entry e) &&
+      (if k =? 0
+       then (depth' =? 0) &&
+            match rest, planned with
+            | [raised], p :: _ => implb (raised =? 1) p
+            | _, _ => false
+            end
+       else true) &&
+      seq_oracle init (if k =? 0 then List.tl planned else planned) depth' r
+  | _ => false
+  end.
+
+Record seq_case : Set := mkseq {
+  s_user : bool; s_created : bool; s_prog : list item;
+  s_planned : list bool; s_seen : list (list Z) }.
+
+Definition seq_fuel (c : seq_case) : nat := (40 * (2 + length (s_seen c)))%nat.
+
+Definition seq_model_trace (c : seq_case) : list (list Z) :=
+  run_seq (seq_fuel c) (init_state (s_user c) (s_created c) [s_prog c]).
+
+Definition check_seq (c : seq_case) : nat :=
+  if seq_oracle (init_entry (s_user c)) (s_planned c) 0 (s_seen c)
+  then if zlistlist_eqb (seq_model_trace c) (s_seen c) then 0%nat else 1%nat
+  else 2%nat.
+
+(* model agreement alone (used to report whether the model predicts a known finding) *)
+Definition check_seq_model (c : seq_case) : nat :=
+  if zlistlist_eqb (seq_model_trace c) (s_seen c) then 0%nat else 1%nat.
+
+(* ------------------------------------------------------------ concurrent runs *)
+Definition visible (th : thread) : bool :=
+  match t_ctl th with
+  | Proto _ _ => true
+  | Run => match t_code th with Yield :: _ => true | _ => false end
+  | Unwind => false
+  end.
+
+Definition finishedb (th : thread) : bool :=
+  match t_ctl th, t_code th, t_stack th with Run, [], [] => true | _, _, _ => false end.
+
+(* the thread runs on until its next scheduling point (a protocol line or a Yield) *)
+Fixpoint normalise (fuel : nat) (s : state) (t : nat) : state :=
+  match fuel with
+  | O => s
+  | S f =>
+      match nth_error (ths s) t with
+      | None => s
+      | Some th =>
+          if visible th then s
+          else match step false no_abort s t with
+               | None => s
+               | Some (s', _) => normalise f s' t
+               end
+      end
+  end.
+
+Fixpoint normalise_all (fuel : nat) (s : state) (n : nat) (t : nat) : state :=
+  match n with
+  | O => s
+  | S m => normalise_all fuel (normalise fuel s t) m (S t)
+  end.
+
+Definition enc_status (x : status) : Z := match x with Outside => 0 | Transit => 1 | Inside => 2 end.
+Definition dec_status (z : Z) : status := if z =? 2 then Inside else if z =? 1 then Transit else Outside.
+
+Definition pos_of (th : thread) : Z :=
+  match t_ctl th with
+  | Proto p _ => Z.of_nat (pc_id p)
+  | Run => match t_code th, t_stack th with
+           | Yield :: _, _ => 30
+           | [], [] => 31
+           | _, _ => 32
+           end
+  | Unwind => 33
+  end.
+
+Definition enc_thread (th : thread) : Z := pos_of th * 4 + enc_status (status_of th).
+Definition snapshot (s : state) : list Z := enc_shared (sh s) ++ map enc_thread (ths s).
+
+Fixpoint run_conc (fuel : nat) (s : state) (sched : list (nat * bool)) : state * list (list Z) :=
+  match sched with
+  | [] => (s, [])
+  | (t, blk) :: r =>
+      match step false no_abort s t with
+      | None =>
+          let '(s', tr) := run_conc fuel s r in
+          let fin := match nth_error (ths s) t with Some th => finishedb th | None => true end in
+          (s', (if blk && negb fin then snapshot s else [-1]) :: tr)
+      | Some (s1, _) =>
+          if blk then let '(s', tr) := run_conc fuel s r in (s', [-2] :: tr)
+          else let s2 := normalise fuel s1 t in
+               let '(s', tr) := run_conc fuel s2 r in (s', snapshot s2 :: tr)
+      end
+  end.
+
+Record conc_case : Set := mkconc {
+  c_user : bool; c_created : bool; c_progs : list (list item);
+  c_planned : list bool;          (* per thread: the harness makes it raise *)
+  c_sched : list (nat * bool);    (* (thread, observed blocked) per scheduler step *)
+  c_completed : bool;             (* every thread ran to completion *)
+  c_seen : list (list Z);         (* after every step: shared projection, threads *)
+  c_out : list (list Z) }.        (* per thread: [raised; result has the modules by identity] *)
+
+Definition conc_fuel (c : conc_case) : nat :=
+  (20 + 4 * fold_right (fun p n => (length p + n)%nat) 0%nat (c_progs c) + length (c_sched c))%nat.
+
+Definition conc_model (c : conc_case) : list (list Z) * list (list Z) :=
+  let f := (10 * conc_fuel c)%nat in
+  let s0 := normalise_all f (init_state (c_user c) (c_created c) (c_progs c)) (length (c_progs c)) 0 in
+  let '(s, tr) := run_conc f s0 (c_sched c) in
+  (tr, map (fun th => [b2z (t_crashed th)]) (ths s)).
+
+(* the property, on the observations alone *)
+Definition snap_of (init : entry) (v : list Z) : bool :=
+  match v with
+  | _ :: _ :: e :: _ :: cs => snap_okb init (map (fun c => dec_status (c mod 4)) cs) (dec_entry e)
+  | _ => false
+  end.
+
+Fixpoint outs_ok (planned : list bool) (outs : list (list Z)) : bool :=
+  match planned, outs with
+  | [], [] => true
+  | p :: pr, [raised; okres] :: r =>
+      (if raised =? 1 then p else (okres =? 1)) && outs_ok pr r
+  | _, _ => false
+  end.
+
+Definition all_finished (v : list Z) : bool :=
+  match v with
+  | _ :: _ :: _ :: _ :: cs => forallb (fun c => c =? 31 * 4) cs
+  | _ => false
+  end.
+
+Definition conc_oracle (c : conc_case) : bool :=
+  c_completed c &&
+  forallb (snap_of (init_entry (c_user c))) (c_seen c) &&
+  all_finished (last (c_seen c) []) &&
+  outs_ok (c_planned c) (c_out c).
+
+Definition check_conc (c : conc_case) : nat :=
+  if conc_oracle c
+  then let '(tr, outs) := conc_model c in
+       if zlistlist_eqb tr (c_seen c) &&
+          zlistlist_eqb outs (map (fun o => firstn 1 o) (c_out c))
+       then 0%nat else 1%nat
+  else 2%nat.
